@@ -19,6 +19,8 @@ ASSUME = ['libsbuf of the scratch copy of the current tree (ASan) linked with th
 
 
 def _build(ctx):
+    # src/Makefile does not rebuild sub-directory libraries: make the libraries holding the code under test first
+    ctx.vbuild('src/sbuf:libsbuf.la', 'src/base:libbase.la')
     return seq.build(ctx, 'tests/testSBuf', ['C48_sbuf.cc'], drop_objects=[r'^tests/SBufFindTest\.o$'])
 
 
